@@ -131,6 +131,17 @@ func TestC19Cdi(t *testing.T) {
 			t.Fatalf("VERIF-HARNESS materialise: %v", err)
 		}
 		dirs := l.Paths()
+		// one layout in three also holds a Spec that only the schema refuses (hook timeout below zero): whether it
+		// counts as a file in error depends on the validator the tool installs - and on its being installed before
+		// the directories are read
+		if rapid.IntRange(0, 2).Draw(t, "schemaOnlyInvalid") == 0 {
+			for _, sl := range l.Slots {
+				if l.Pool[sl].Exists {
+					_ = os.WriteFile(filepath.Join(l.Path(sl), "zz-timeout.json"), []byte(`{"cdiVersion":"0.6.0","kind":"v9.io/t","devices":[{"name":"t0","containerEdits":{"hooks":[{"hookName":"prestart","path":"/bin/true","timeout":-1}]}}]}`), 0o644)
+					break
+				}
+			}
+		}
 		schemaName := rapid.SampledFrom([]string{"", "builtin", "none"}).Draw(t, "schema")
 		// what the library computes for those directories with the same validator
 		switch schemaName {
